@@ -29,10 +29,7 @@ def register(add):
         bound_note='output length 55 bytes (two hash blocks, the second cut at 23 bytes: the only length rand_seed requests), input string of 0..96 bytes in its own object; block loop unwound completely', **DA)
     add('c15x.rand_hash.ctx', P, 'rand_hash', defines=['VC_CTX_RAND', 'VC_DF_NB=2', 'VC_DF_OUTLEN=55', 'VC_DF_SHAPE_CTX'], unwindset=[DW + '.0:3'],
         bound_note='output length 55 bytes, input string = the 56 bytes in front of the output in the same object (the call C = Hash_df(00 || V) of rand_seed); block loop unwound completely', **DA)
-    for nb in (1, 2, 3):
-        add('c15x.rand_hash.b%d' % nb, P, 'rand_hash', defines=['VC_CTX_RAND', 'VC_DF_NB=%d' % nb, 'VC_DF_SHAPE_SEP'], unwindset=[DW + '.0:%d' % (nb + 1)],
-            bound_note='one unit per block count: output lengths %d..%d bytes (%d block%s, last one truncated), output buffer of exactly the requested length, input string of 0..96 bytes; '
-                       'block loop unwound completely' % (32 * (nb - 1) + 1, 32 * nb, nb, '' if nb == 1 else 's'), **DA)
+    # (general-length units rand_hash.b1-b3 with a symbolic-size output object were tried: 130 s alone at --object-bits 11, not reproducible in parallel runs: not registered)
     add('c15x.rand_seed.df', P, 'rand_seed', contract='rand_seed_df', sources=[SRC], sources_extra=['src/relic_util.c'], headers=DH, conf='base', route='bounded',
         defines=['VC_CTX_RAND', 'VC_DF_NB=2', 'VC_DF_OUTLEN=55'], decls='uint8_t *buf; size_t n;', call='rand_seed(buf, n)', replace=['md_map_sh256/md_map_sh256_df'], unwind=60, timeout=900,
         flags=['--object-bits', '9'],
